@@ -91,8 +91,11 @@ void fiber_scheduler_schedule(fiber_scheduler_t* scheduler,
 #ifdef LIBFIBER_VERIF
   verif_scheduled(scheduler, the_fiber);
 #endif
+  // newly runnable fibers join the *next* batch; pushing onto the queue that
+  // fiber_scheduler_next() is draining (LIFO) would let two yielding fibers
+  // alternate forever and starve everything queued below them
   wsd_work_stealing_deque_push_bottom(
-      ((fiber_scheduler_wsd_t*)scheduler)->schedule_from, the_fiber);
+      ((fiber_scheduler_wsd_t*)scheduler)->store_to, the_fiber);
 }
 
 fiber_t* fiber_scheduler_next(fiber_scheduler_t* sched) {
